@@ -7,7 +7,10 @@ import (
 	"math/rand"
 	"path/filepath"
 	"reflect"
+	"sort"
 	"strings"
+	"sync"
+	"sync/atomic"
 	"time"
 	"unicode/utf8"
 
@@ -76,7 +79,7 @@ func runC13(r *vf.Run) {
 		copyPath := filepath.Join(dir, "copy.updog")
 		_ = ix.CopyFile(path, copyPath)
 		pool := c13Pool(rng, ds, 80)
-		for _, so := range serverOptionSets {
+		for oi, so := range serverOptionSets {
 			sid := did + "/" + so.name
 			if !r.Want(sid) {
 				continue
@@ -89,6 +92,9 @@ func runC13(r *vf.Run) {
 			}
 			c13Batches(r, sid, sp, rng, pool, r.Pick(60, 300), ds.Rows, ds.Cols)
 			c13Driver(r, sid, sp, rng, ds, copyPath, r.Pick(25, 100))
+			if (di+oi)%2 == 0 || r.Thorough() {
+				c13Concurrent(r, sid, sp, pool)
+			}
 			alive := sp.alive()
 			_, log := sp.stop()
 			if !alive || strings.Contains(log, "panic:") {
@@ -291,6 +297,92 @@ func c13Batches(r *vf.Run, sid string, sp *serverProc, rng *rand.Rand, pool []c0
 			r.Sample("batch", map[string]any{"server": sid, "ids": ids, "queries": texts})
 		}
 	}
+}
+
+// c13Concurrent: 16 clients at once, half of them with large batches whose responses take long to write (group-by
+// lists with many groups), half with small quick ones; every response is compared completely. A response must not be
+// influenced by requests that are handled while it is being produced or written.
+func c13Concurrent(r *vf.Run, sid string, sp *serverProc, pool []c04Query) {
+	cid := sid + "/concurrent"
+	if !r.Want(cid) {
+		return
+	}
+	var valid []c04Query
+	for _, q := range pool {
+		if !q.Want.Err {
+			valid = append(valid, q)
+		}
+	}
+	if len(valid) == 0 {
+		return
+	}
+	// the queries with the largest responses
+	heavy := append([]c04Query{}, valid...)
+	sort.SliceStable(heavy, func(i, j int) bool { return len(heavy[i].Want.Groups) > len(heavy[j].Want.Groups) })
+	heavy = heavy[:max(1, len(heavy)/5)]
+	const clients = 16
+	per := r.Pick(40, 300)
+	var wg sync.WaitGroup
+	var bad atomic.Int64
+	var batches, queries atomic.Int64
+	for g := 0; g < clients; g++ {
+		wg.Add(1)
+		go func(g int) {
+			defer wg.Done()
+			rng := r.RNG(fmt.Sprintf("%s/g%d", cid, g))
+			conn, cl, err := dial(sp.addr)
+			if err != nil {
+				return
+			}
+			defer conn.Close()
+			for b := 0; b < per && bad.Load() == 0; b++ {
+				var qs []c04Query
+				if g%2 == 0 {
+					for i := 0; i < 6+rng.Intn(8); i++ {
+						qs = append(qs, heavy[rng.Intn(len(heavy))])
+					}
+				} else {
+					for i := 0; i < 1+rng.Intn(4); i++ {
+						qs = append(qs, valid[rng.Intn(len(valid))])
+					}
+				}
+				ids := make([]int32, len(qs))
+				for i := range ids {
+					if rng.Intn(3) != 0 {
+						ids[i] = int32(1000*(g+1) + rng.Intn(900)) // ids tell the clients apart
+					}
+				}
+				req := &pb.QueryRequest{}
+				for i, q := range qs {
+					req.Queries = append(req.Queries, &pb.Query{Id: ids[i], Expr: q.proto(), GroupBy: q.GB})
+				}
+				ctx, cancel := context.WithTimeout(context.Background(), 120*time.Second)
+				resp, err := cl.Query(ctx, req)
+				cancel()
+				batches.Add(1)
+				queries.Add(int64(len(qs)))
+				var d string
+				if err != nil {
+					d = "rpc error for a valid batch: " + err.Error()
+				} else {
+					d = compareBatch(resp, qs, ids)
+				}
+				if d != "" {
+					if bad.Add(1) == 1 {
+						r.Violation(cid, "response-under-concurrency", map[string]any{"server": sid, "client": g, "batch_of_client": b, "batch_size": len(qs), "ids": ids, "difference": d,
+							"note": "16 clients at once; the same batches are answered correctly one at a time (sequential part of this check)"})
+					}
+					return
+				}
+			}
+		}(g)
+	}
+	wg.Wait()
+	r.Eval(int(batches.Load()))
+	r.Distinct(cid)
+	r.Count("concurrent_batches", batches.Load())
+	r.Count("queries_in_concurrent_batches", queries.Load())
+	r.Cover("concurrent_phase_server_option_sets", sid[strings.Index(sid, "/")+1:])
 }
 
 // c13Driver: the same texts through the sql driver with grpc:// and file: DSNs.
